@@ -269,6 +269,11 @@ pub fn header_carriers_with(map: &[u8], pb: &[u8], all: bool) -> Vec<(&'static s
             ("Header.countersig.unprotected", Ty::Header, hdr_cs_u.clone()),
             ("Header.countersigs[1].protected", Ty::Header, hdr_cs2_p.clone()),
             ("Sign1.protected.countersig.protected", Ty::Sign1, cat(&[&[0x84], &wrap_bstr(&hdr_cs_p), m0, &[0x41, 0x70], e0])),
+            // deeper combinations: counter-signatures inside recipients / signers
+            ("Mac.recipient.protected.countersig.protected", Ty::Mac, cat(&[&[0x85], e0, m0, pl, e0, &[0x81], &rec_with(&wrap_bstr(&hdr_cs_p), m0)])),
+            ("Encrypt.recipient.unprotected.countersig.unprotected", Ty::Encrypt, cat(&[&[0x84], e0, m0, pl, &[0x81], &rec_with(e0, &hdr_cs_u)])),
+            ("Sign.signer1.protected.countersigs[1].protected", Ty::Sign, cat(&[&[0x84], e0, m0, nil, &[0x82], &sig_with(e0, m0), &sig_with(&wrap_bstr(&hdr_cs2_p), m0)])),
+            ("Recipient.recipient[1].recipient.protected", Ty::Recipient, cat(&[&[0x84], e0, m0, nil, &[0x82], &rec_with(e0, m0), &rec_nested_p])),
             ("SuppPubInfo.protected", Ty::SuppPub, cat(&[&[0x82, 0x18, 0x80], &pb])),
             ("KdfContext.supp_pub.protected", Ty::Kdf, cat(&[&[0x84, 0x26, 0x83, 0xf6, 0xf6, 0xf6, 0x83, 0xf6, 0xf6, 0xf6, 0x82, 0x18, 0x80], &pb])),
         ]);
